@@ -21,7 +21,9 @@ func H_indep() {
 	mode := vParamString("mode")
 	argvA := vArgvFor(vParamString("profile"))
 	vNoHelp(argvA)
-	cfgA := vAppCfg{spec: sa, envAll: true, policy: flag.ContinueOnError}
+	vResetShared()
+	cfgA := vAppCfg{spec: sa, envAll: true, policy: flag.ContinueOnError, shared: true}
+	vEnvCandidates = 15
 	env := vSymbolicEnv()
 	_ = env
 	switch mode {
@@ -33,20 +35,25 @@ func H_indep() {
 		stores := vGlobalStores()
 		loads := vGlobalLoads()
 		vObserveOutcome("a", a1)
-		vAssert(len(stores) == 0, "C20: the library stored to a package-level variable while building or running an application")
+		vAssert(len(stores) == 0, "C20 [engine-observed]: the library stored to package-level state (a variable, or an object reachable from one) while building or running an application")
 		for _, g := range loads {
 			ok := g == "stdErr" || g == "stdOut" || g == "exiter" || g == "errHelpRequested" || g == "errVersionRequested"
-			vAssert(ok, "C20: the library read a package-level variable other than the stream/exit indirections and sentinel errors")
+			vAssert(ok, "C20 [engine-observed]: the library read a package-level variable other than the stream/exit indirections and sentinel errors")
 		}
 		vCover("footprint")
 	case "interfere":
 		argvB := vRawArgv(2, 2)
 		vNoHelp(argvB)
-		cfgB := vAppCfg{spec: sb, envAll: true, policy: flag.ContinueOnError}
+		cfgB := vAppCfg{spec: sb, envAll: true, policy: flag.ContinueOnError, shared: true}
+		// the applications share declaration data (one default slice), as two instances
+		// of one program would; B runs on its own input between two runs of A
+		bFirst := vRunTable(cfgB, argvB)
 		alone := vRunTable(cfgA, argvA)
 		bAlone := vRunTable(cfgB, argvB)
 		after := vRunTable(cfgA, argvA) // A after B (and after a first A)
 		bAfter := vRunTable(cfgB, argvB)
+		vAssert(vSameOutcome(bFirst, bAlone), "C20: an application's outcome changed after another application ran")
+		vAssert(vEqStrs(vSharedDefault, []string{"p", "q"}), "C20: the library wrote through declaration data shared between applications")
 		vObserveOutcome("alone", alone)
 		vObserveOutcome("after", after)
 		vAssert(vSameOutcome(alone, after), "C20: an application's outcome changed after another application ran")
